@@ -422,7 +422,7 @@ var adminAddr string
 func AdminPurge(shard int, cacheName, key string) error {
 	if adminAddr == "" {
 		for k := 0; k < 8 && adminAddr == ""; k++ {
-			addr := fmt.Sprintf("127.0.0.1:%d", 22000+shard*8+k)
+			addr := fmt.Sprintf("127.0.0.1:%d", 30000+(os.Getpid()%300)*8+k) // per-process port block below the ephemeral range
 			errc := make(chan error, 1)
 			go func() { errc <- server.StartAdminServer(server.AdminServerConfig{Addr: addr}) }()
 			for t0 := time.Now(); time.Since(t0) < 2*time.Second; time.Sleep(10 * time.Millisecond) {
